@@ -74,6 +74,51 @@ PropC13(e) == e.ev \in {"rt", "dec"} =>
    \A i \in 1..Len(e.hdrs) : LET h == e.hdrs[i] IN
        h.nl \in 1..3 /\ h.pos <= Len(e.bytes) /\ h.len = LenAt(e.bytes, h.pos, h.nl)
 
+\* C13, every size: the unexported header routine swept by the harness (points with the full header bytes,
+\* and maximal intervals on which its class - error / format byte / number of length bytes - is constant)
+HClass(c, n) == IF ~Constructible(c, n) THEN [err |-> TRUE, fb |-> 0, nl |-> 0]
+                ELSE LET k == Len(LenBytes(n * Width(c))) IN [err |-> FALSE, fb |-> c * 4 + k, nl |-> k]
+MaxCount(c) == MaxBytes \div Width(c)
+PropHdr(e) ==
+  /\ e.ev = "hdrpoint" => LET c == CodeOf(e.f) IN
+        /\ e.err = ~Constructible(c, e.n)
+        /\ ~e.err => e.hdr = ItemHeader(c, e.n)
+  /\ e.ev = "hdrivl" => LET c == CodeOf(e.f)  cls == [err |-> e.err, fb |-> e.fb, nl |-> e.nl] IN
+        /\ e.exact                                        \* declared length = n * width everywhere on the interval
+        /\ e.prevb < e.a /\ (e.prevb = -1 <=> e.a = 0)
+        /\ HClass(c, e.a) = cls /\ HClass(c, e.b) = cls
+        /\ e.a > 0 => HClass(c, e.a - 1) # cls             \* the class changes exactly where the format says
+        /\ e.dense => (e.a = e.prevb + 1 /\ \A n \in e.a..e.b : HClass(c, n) = cls)
+        /\ e.final => (e.err /\ e.b = MaxCount(c) + 16)
+
+\* C13, real items at the boundaries, as run-length summaries
+RECURSIVE Merge(_)
+Merge(rs) == IF Len(rs) < 2 THEN rs
+             ELSE IF rs[1].v = rs[2].v THEN Merge(<<[v |-> rs[1].v, n |-> rs[1].n + rs[2].n]>> \o SubSeq(rs, 3, Len(rs)))
+             ELSE <<rs[1]>> \o Merge(Tail(rs))
+Runs3(n, a, b, c) == Merge(IF n = 0 THEN <<>> ELSE IF n = 1 THEN <<[v |-> a, n |-> 1]>>
+                           ELSE IF n = 2 THEN <<[v |-> a, n |-> 1], [v |-> c, n |-> 1]>>
+                           ELSE <<[v |-> a, n |-> 1], [v |-> b, n |-> n - 2], [v |-> c, n |-> 1]>>)
+ChunkOf(f, x) == IF f = "L" THEN EncItem(ByteLevel(x)) ELSE IF f = "A" THEN <<x>> ELSE ElemBytes(CodeOf(f), x)
+PropBig(e) == e.ev = "big" =>
+  LET c == CodeOf(e.f)  w == Width(c) IN
+  /\ e.built = Constructible(c, e.n)                       \* constructible iff count * width <= 16,777,215
+  /\ e.built =>
+      /\ e.size = e.n
+      /\ e.hdr = ItemHeader(c, e.n)
+      /\ e.enclen = Len(e.hdr) + e.n * (IF c = 0 THEN 3 ELSE w)
+      /\ e.runs = Runs3(e.n, ChunkOf(e.f, e.first), ChunkOf(e.f, e.mid), ChunkOf(e.f, e.last))
+      /\ e.dec.done =>
+           /\ e.dec.ok /\ e.dec.same
+           /\ e.dec.nh = (IF c = 0 THEN e.n + 1 ELSE 1)
+           /\ e.dec.hdrs[1] = [pos |-> 14 + Len(e.hdr), code |-> c, nl |-> Len(e.hdr) - 1, len |-> e.n * w]
+           /\ e.dec.hasv => (e.dec.vf = e.f /\ e.dec.vruns = Runs3(e.n, e.first, e.mid, e.last))
+
+\* ------------------------------------------------------------------ C07: total, memory linear in the input
+PropC07(e) == e.ev = "alloc" =>
+   /\ e.outcome = "returned"                       \* no panic escapes, no process abort
+   /\ e.alloc_kb <= AllocBoundKB(e.len)
+
 \* ------------------------------------------------------------------ model agreement (drift only)
 AgreeDecoder(e) == e.ev \in {"rt", "dec"} =>
    LET r == Run(e.bytes) IN
@@ -86,4 +131,7 @@ InvC02 == l > 0 => PropC02(E)
 InvC03 == l > 0 => PropC03(E)
 InvC13 == l > 0 => PropC13(E)
 InvAgreeDecoder == l > 0 => AgreeDecoder(E)
+InvC07 == l > 0 => PropC07(E)
+InvHdr == l > 0 => PropHdr(E)
+InvBig == l > 0 => PropBig(E)
 =====================================================================
